@@ -229,6 +229,19 @@ theorem beta_value_anywhere (sem : Sem) (den : Builtin → List Value → Res Va
   cases arg <;> simp [argValue] at hv <;> subst hv <;>
     simp [Spec.runFrom, Spec.step, Spec.applyValue]
 
+/-- `identity_reducer` at any position: `[(lam x x) arg]` for a value-shaped `arg` returns `arg`'s
+value to the enclosing context, six steps later — exactly what computing `arg` alone returns -/
+theorem identity_value_anywhere (sem : Sem) (den : Builtin → List Value → Res Value) (fuel : Nat)
+    (ctx : Ctx) (env : List Value) (s : String) (arg : NTerm) (v : Value)
+    (hv : argValue env arg = some v) :
+    Spec.runFrom sem den (fuel + 6) (.compute ctx env (.app (.lam ⟨s, 1⟩ (.var ⟨s, 1⟩)) arg)) =
+      Spec.runFrom sem den fuel (.ret ctx v) ∧
+    Spec.runFrom sem den (fuel + 1) (.compute ctx env arg) = Spec.runFrom sem den fuel (.ret ctx v) := by
+  constructor
+  · rw [show fuel + 6 = (fuel + 1) + 5 from rfl, beta_value_anywhere sem den (fuel + 1) ctx env ⟨s, 1⟩ _ arg v hv]
+    simp [Spec.runFrom, Spec.step, Spec.lookup]
+  · cases arg <;> simp [argValue] at hv <;> subst hv <;> simp [Spec.runFrom, Spec.step]
+
 /-- non-vacuity: the table does substitute something, and a selected term exists for the shape -/
 example : (ArgShape.constant, Verdict.always) ∈ lambdaReducerArms ∧
     selects .constant one = true ∧ argValue [] one = some (.con (.integer 1)) := by
